@@ -10,6 +10,7 @@ Claims are discharged as `path_condition AND NOT claim` queries.
 import hashlib
 import math
 import os
+import threading
 import time
 from fractions import Fraction
 
@@ -52,6 +53,28 @@ def frac_of(v):
     raise HarnessError("model value %s is not numeric" % v)
 
 
+class _Watchdog(threading.Thread):
+    """interrupts a solver call that overruns its own timeout (z3's nonlinear engine does not always honour it)"""
+
+    def __init__(self, ctx):
+        super().__init__(daemon=True)
+        self.ctx = ctx
+        self.deadline = None
+        self.fired = 0
+
+    def run(self):
+        while True:
+            time.sleep(0.25)
+            d = self.deadline
+            if d is not None and time.time() > d:
+                self.deadline = None
+                self.fired += 1
+                try:
+                    self.ctx.interrupt()
+                except Exception:      # noqa: BLE001
+                    pass
+
+
 class Stats:
     FIELDS = ("paths", "infeasible_runs", "decisions", "implied", "cache_hits", "queries", "sat", "unsat",
               "unknown_branch", "unknown_claim", "claims", "claim_queries", "witness_replays", "cuts")
@@ -91,11 +114,28 @@ class Engine:
         self.hints = []
         self.fn_cache = {}
         self.int_mode = False
+        self._wd = None
         self.power_hook = None
         self.log10_hook = None
         self.log_tol = Fraction(1, 10 ** 12)
 
     # ------------------------------------------------------------------ solver
+    def _guard(self, ms):
+        """context manager: arm the watchdog for a solver call made outside _check"""
+        eng = self
+
+        class _G:
+            def __enter__(self_inner):
+                if eng._wd is None:
+                    eng._wd = _Watchdog(eng.solver.ctx)
+                    eng._wd.start()
+                eng._wd.deadline = time.time() + 1.5 * ms / 1000.0 + 2.0
+
+            def __exit__(self_inner, *exc):
+                eng._wd.deadline = None
+                return False
+        return _G()
+
     def _dump(self, extra, result):
         """solver cross-check support: write the query as SMT-LIB2 (tools/crosscheck.py re-runs it with cvc5 / old z3)"""
         d = os.environ.get("PVX_DUMP_DIR")
@@ -116,7 +156,16 @@ class Engine:
         self.stats.queries += 1
         if claim and self.claim_timeout_ms != self.timeout_ms:
             self.solver.set("timeout", self.claim_timeout_ms)
-        r = self.solver.check(*extra)
+        if self._wd is None:
+            self._wd = _Watchdog(self.solver.ctx)
+            self._wd.start()
+        self._wd.deadline = time.time() + 1.5 * (self.claim_timeout_ms if claim else self.timeout_ms) / 1000.0 + 2.0
+        try:
+            r = self.solver.check(*extra)
+        except z3.Z3Exception:
+            r = "unknown"
+        finally:
+            self._wd.deadline = None
         if claim and self.claim_timeout_ms != self.timeout_ms:
             self.solver.set("timeout", self.timeout_ms)
         self.stats.solver_s += time.time() - t
@@ -245,7 +294,11 @@ class Engine:
                 s.add(e if d else z3.Not(e))
             t = time.time()
             self.stats.queries += 2
-            rt, rf = str(s.check(expr)), str(s.check(z3.Not(expr)))
+            try:
+                with self._guard(2 * self.timeout_ms):
+                    rt, rf = str(s.check(expr)), str(s.check(z3.Not(expr)))
+            except z3.Z3Exception:
+                rt = rf = "unknown"
             self.stats.solver_s += time.time() - t
         else:
             rt = rf = None
@@ -276,8 +329,12 @@ class Engine:
             s.add(e if d else z3.Not(e))
         t = time.time()
         self.stats.queries += 2
-        rt = str(s.check(expr))
-        rf = str(s.check(z3.Not(expr)))
+        try:
+            with self._guard(2 * self.timeout_ms):
+                rt = str(s.check(expr))
+                rf = str(s.check(z3.Not(expr)))
+        except z3.Z3Exception:
+            rt = rf = "unknown"
         self.stats.solver_s += time.time() - t
         if rt != "unsat" and rf == "unsat":
             return True
@@ -518,7 +575,8 @@ class Engine:
             t = time.time()
             self.stats.queries += 1
             try:
-                r = str(s.check())
+                with self._guard(self.claim_timeout_ms * 2):
+                    r = str(s.check())
             except z3.Z3Exception:
                 r = "unknown"
             self.stats.solver_s += time.time() - t
